@@ -5,6 +5,7 @@ mod common;
 mod rng;
 mod c11;
 mod c06;
+mod c01;
 
 use std::io::{BufWriter, Write};
 
@@ -25,6 +26,7 @@ fn main() {
             match prop {
                 "C11" => c11::gen(tier, seed, &mut out),
                 "C06" => c06::gen(tier, seed, &mut out),
+                "C01" => c01::gen(tier, seed, &mut out),
                 _ => {
                     eprintln!("unknown property {}", prop);
                     std::process::exit(2);
@@ -63,6 +65,13 @@ fn replay_one(toks: &[&str]) -> String {
             let scratch = common::scratch_root().join("c06r");
             std::fs::create_dir_all(&scratch).unwrap();
             let r = c06::observe(&toks[1..], &scratch);
+            common::rm_rf(&scratch);
+            r
+        }
+        "C01" => {
+            let scratch = common::scratch_root().join("c01r");
+            std::fs::create_dir_all(&scratch).unwrap();
+            let r = c01::observe(&toks[1..], &scratch);
             common::rm_rf(&scratch);
             r
         }
